@@ -2813,6 +2813,81 @@ func scenTransferTargetCampaignsLater(e *engineA) error {
 	return e.finish()
 }
 
+func init() { scenarios["idle-nonvoter-restarted"] = scenIdleNonvoterRestarted }
+
+// scenIdleNonvoterRestarted (C17; known finding): a non-voter that is fully
+// caught up is restarted while the cluster has nothing to do. A restarted
+// node knows its log but not how much of it is committed; it applies nothing
+// until a leader tells it. Nobody submits anything: within the bound the
+// leader has to get in touch by itself and the node's state machine has to be
+// what it was.
+func scenIdleNonvoterRestarted(e *engineA) error {
+	e.prof = profiles["member"]
+	if err := e.boot(3); err != nil {
+		return err
+	}
+	e.cl.startInfoSampler(e.hb() / 2)
+	l := e.cl.leader()
+	if l == nil {
+		return fmt.Errorf("no leader")
+	}
+	info, ok := l.info(false)
+	if !ok {
+		return fmt.Errorf("no status")
+	}
+	conf := info.Configs.Latest
+	id := e.newNodeID(&conf)
+	if id == 0 {
+		return fmt.Errorf("no new node")
+	}
+	if err := e.cl.changeConfig(l, fmt.Sprintf("add(%d,promote=false)", id), func(c *raft.Config) error {
+		return c.AddNonvoter(id, e.cl.addrOf(id), false)
+	}); err != nil {
+		return fmt.Errorf("add: %v", err)
+	}
+	var want int64
+	for i := 0; i < 5+e.rng.Intn(10); i++ {
+		if r := e.cl.fsmOp(1, l, "update"); r.ok {
+			want = r.pos
+		}
+	}
+	n := e.cl.node(id)
+	if !e.waitFor(60, func() bool {
+		r := e.cl.fsmOp(1, n, "dirty")
+		return r.ok && r.readLen >= want
+	}) {
+		return fmt.Errorf("the non-voter did not catch up in the first place")
+	}
+	e.sleepHB(3, 5)
+	e.rc.emit(&ev.Rec{K: "fault", Op: "idle-nonvoter-restarted", Nid: id})
+	if !n.shutdown(30 * time.Second) {
+		return fmt.Errorf("shutdown")
+	}
+	var err error
+	if n, err = e.cl.start(id, n.dir); err != nil {
+		return err
+	}
+	e.rc.emit(&ev.Rec{K: "quiet-begin"})
+	caughtUp := e.waitFor(60, func() bool {
+		r := e.cl.fsmOp(1, n, "dirty")
+		return r.ok && r.readLen >= want
+	})
+	e.rc.emit(&ev.Rec{K: "quiet-end"})
+	rec := &ev.Rec{K: "bounded-catch-up", Cid: e.cl.cid, Nid: id, Kind: "caught-up", Cnt: want}
+	if !caughtUp {
+		rec.Kind = "never"
+		if ni, ok := n.info(false); ok {
+			rec.Note = fmt.Sprintf("node %d: leader %d, commit index %d, last log index %d", id, ni.Leader, ni.Committed, ni.LastLogIndex)
+		}
+		if li, ok := l.info(false); ok {
+			f := li.Followers[id]
+			rec.Note += fmt.Sprintf("; the leader reports match index %d, unreachable %v", f.MatchIndex, f.Unreachable != nil)
+		}
+	}
+	e.rc.emit(rec)
+	return e.finish()
+}
+
 func init() { scenarios["late-install-response"] = scenLateInstallResponse }
 
 // scenLateInstallResponse (C15 / C17): a new node is brought up by snapshot
